@@ -12,3 +12,5 @@ double atof(const char *s)
     double v = num / den;
     return neg ? -v : v;
 }
+/* clang -O1 rewrites atof(s) as strtod(s, NULL) */
+double strtod(const char *s, char **end) { (void)end; return atof(s); }
